@@ -1489,6 +1489,12 @@ class H2Connection:
         try:
             for frame in self.incoming_buffer:
                 events.extend(self._receive_frame(frame))
+                # The frame may have been the SETTINGS ACK that changes our
+                # MAX_FRAME_SIZE: later frames in this very chunk of data
+                # must be checked against the new limit.
+                self.incoming_buffer.max_frame_size = (
+                    self.max_inbound_frame_size
+                )
         except InvalidPaddingError:
             self._terminate_connection(ErrorCodes.PROTOCOL_ERROR)
             raise ProtocolError("Received frame with invalid padding.")
